@@ -109,7 +109,7 @@ _CK = re.compile(r'<<\s*"CHECKED",\s*(\d+)\s*>>')
 
 
 def validate_records(records, *, defdid="hash", mk=1, module="TraceCore.tla", shards=16, tag="val", timeout=1800,
-                     extra_consts=None):
+                     extra_consts=None, nutree_consts=True):
     """Run TLC on the records (sharded over several JVMs).  Returns (mismatches, checked, wall)."""
     good = [r for r in records if "harness_error" not in r]
     herr = [r for r in records if "harness_error" in r]
@@ -129,9 +129,10 @@ def validate_records(records, *, defdid="hash", mk=1, module="TraceCore.tla", sh
         files.append(p)
     cfg = WORK / "cfg" / f"{uniq}.cfg"
     cfg.parent.mkdir(parents=True, exist_ok=True)
-    consts = {"MetaKeys": mk}
+    consts = {"MetaKeys": mk} if nutree_consts else {}
     consts.update(extra_consts or {})
-    write_cfg(cfg, init="Init", next_="Next", constants=consts, subst={"DefDid": DEFDID_OP[defdid]})
+    write_cfg(cfg, init="Init", next_="Next", constants=consts,
+              subst={"DefDid": DEFDID_OP[defdid]} if nutree_consts else None)
     t0 = time.time()
 
     def one(p):
